@@ -12,7 +12,14 @@
                                                                                     → t0=<v>,<loaded> t1=<v>,<loaded>
     range <nk> <a>               Range over keys 1..nk; after a visits another thread deletes every key, visited first
                                                                                     → seen=<pairs reported>
-    hist <init> <call>…          a recorded history; is it linearizable w.r.t. `Op.spec`?  → lin | nonlin
+    hist <init> <call>…          a recorded history; is it linearizable w.r.t. `Op.spec` (`HOp.spec` for the `N` = Length()
+                                 calls of set histories)?                          → lin | nonlin
+    setlen <obj> <nk> <trials> <queue>…
+                                 a fresh ConcurrentSets (`cs`) / GenericConcurrentSets (`gs`) holding the keys 1..nk; one goroutine
+                                 per queue (`x<k>` Remove k, `p<k>` Put k, joined by `.`; no key both removed and put, so every
+                                 schedule ends in the same set), all released together; after they have returned:
+                                 Length(), len(ToArray()) and the keys 1..8 for which Exists holds = what a sequential
+                                 execution leaves                                  → len=<n> arr=<n> has=<k.k…|->
 -/
 import Ioc.Conc
 namespace Driver.Conc
@@ -91,19 +98,51 @@ def parseOp (name k v : String) : Option Op :=
   | "X" => some (.remove kn)
   | _ => none
 
-def parseCall (tok : String) : Option Rec :=
+/-- `N:<k.k.k>:-:g/<n>/0:…` = Length() of a set over the key universe of the history -/
+def parseHOp (name k v : String) : Option HOp :=
+  if name == "N" then some (.length ((k.splitOn ".").map fun x => natOr x 0))
+  else (parseOp name k v).map HOp.op
+
+def parseCall (tok : String) : Option HRec :=
   match tok.splitOn ":" with
   | [name, k, v, res, inv, ret] =>
-    match parseOp name k v, parseRes res with
+    match parseHOp name k v, parseRes res with
     | some op, some r => some ⟨op, r, natOr inv 0, natOr ret 0⟩
     | _, _ => none
   | _ => none
 
+/-- `linearizableHB` on a history without `Length` calls is `linearizableB` (IocProofs.C20.C20_hist_conservative) -/
 def handleHist (init : String) (calls : List String) : String :=
   let m0 : MapSt := fun k => (parsePairs "," "=" init).lookup k
   let recs := calls.map parseCall
   if recs.any Option.isNone then "bad-line" else
-  if linearizableB m0 (recs.filterMap id) then "lin" else "nonlin"
+  if linearizableHB m0 (recs.filterMap id) then "lin" else "nonlin"
+
+/-! quiescent reads of a set after concurrent removals / insertions -/
+
+def parseSetOp (s : String) : Option Op :=
+  match s.toList with
+  | 'x' :: r => (String.ofList r).toNat?.map Op.remove
+  | 'p' :: r => (String.ofList r).toNat?.map Op.put
+  | _ => none
+
+def parseQueue (s : String) : Option (List Op) :=
+  let ops := (s.splitOn ".").map parseSetOp
+  if ops.any Option.isNone then none else some (ops.filterMap id)
+
+def setUniverse : List Nat := [1, 2, 3, 4, 5, 6, 7, 8]
+
+def handleSetLen (obj : String) (nk : Nat) (queues : List String) : String :=
+  let qs := queues.map parseQueue
+  if (obj != "cs" && obj != "gs") || nk > 8 || qs.isEmpty || qs.any Option.isNone then "bad-line" else
+  let qs := qs.filterMap id
+  let all := qs.flatten
+  if all.any (fun op => op.key == 0 || op.key > 8) then "bad-line" else
+  if (removedKeys all).any (fun k => (putKeys all).contains k) then "bad-line" else
+  let m0 : MapSt := fun k => if 1 ≤ k ∧ k ≤ nk then some 0 else none
+  let r := quiescentObs m0 qs setUniverse
+  "len=" ++ toString r.1 ++ " arr=" ++ toString r.2.1 ++ " has=" ++
+    (if r.2.2.isEmpty then "-" else ".".intercalate (r.2.2.map toString))
 
 def handle (line : String) : String :=
   match line.splitOn " " with
@@ -125,6 +164,7 @@ def handle (line : String) : String :=
   | ["lofn", digits] => handleLofn digits
   | ["range", nk, a] => handleRange (natOr nk 0) (natOr a 0)
   | "hist" :: init :: calls => handleHist init calls
+  | "setlen" :: obj :: nk :: _trials :: queues => handleSetLen obj (natOr nk 9) queues
   | _ => "bad-line"
 
 end Driver.Conc
